@@ -760,4 +760,379 @@ theorem run_sizeInv : ∀ (ops : List Op) (st : St), SizeInv st → SizeInv (run
     simp only [run]
     exact run_sizeInv ops _ (exec_sizeInv st op h)
 
+/-! ## the file on disk has the logical size; windows have the length the size dictates -/
+
+/-- physical size = logical size, and every window is mapped as far as the file reaches -/
+def Inv (st : St) : Prop := st.file.length = st.fsize ∧ ∀ s ∈ st.slots, s.len = slotLen s st.fsize
+
+theorem slotLen_remapSlot (fsize : Nat) (s : Slot) : (remapSlot fsize s).len = slotLen (remapSlot fsize s) fsize := by
+  unfold remapSlot
+  simp only []
+  split
+  · rename_i h; exact h.symm
+  · rfl
+
+theorem truncate_inv (st : St) (size : Nat) (h : Inv st) : Inv (truncate st size).2 := by
+  rcases truncate_cases st size with ⟨e, _⟩ | ⟨e, _⟩ | ⟨e, _⟩ <;> rw [e]
+  · exact h
+  · exact h
+  · refine ⟨length_resize _ _, ?_⟩
+    intro s hs
+    simp only [remapAll, List.mem_map] at hs
+    obtain ⟨s0, _, rfl⟩ := hs
+    exact slotLen_remapSlot _ _
+
+theorem ensureSize_inv (st : St) (sz : Nat) (h : Inv st) : Inv (ensureSize st sz).2 := by
+  unfold ensureSize
+  split
+  · exact h
+  · simp only []
+    have h' : Inv { st with prev := (policy st.psize st.pol st.prev sz st.fsize).2 } := h
+    split
+    · exact h'
+    · split
+      · split
+        · exact h'
+        · exact truncate_inv _ _ h'
+      · exact truncate_inv _ _ h'
+
+/-- the outcomes of `_exfile_ensure_size_lw` -/
+theorem ensureSize_cases (st : St) (sz : Nat) :
+    (st.fsize ≥ sz ∧ ensureSize st sz = (.ok, st)) ∨
+    (st.fsize < sz ∧
+      (ensureSize st sz = (.policy, { st with prev := (policy st.psize st.pol st.prev sz st.fsize).2 }) ∨
+       ensureSize st sz = (.maxoff, { st with prev := (policy st.psize st.pol st.prev sz st.fsize).2 }) ∨
+       ∃ T, sz ≤ T ∧ ensureSize st sz = truncate { st with prev := (policy st.psize st.pol st.prev sz st.fsize).2 } T ∧
+         T = (if st.maxoff ≠ 0 ∧ (policy st.psize st.pol st.prev sz st.fsize).1 > st.maxoff then st.maxoff
+              else (policy st.psize st.pol st.prev sz st.fsize).1) ∧
+         (policy st.psize st.pol st.prev sz st.fsize).1 % st.psize = 0)) := by
+  unfold ensureSize
+  by_cases h0 : st.fsize ≥ sz
+  · left; simp [h0]
+  · right
+    refine ⟨by omega, ?_⟩
+    simp only [h0, if_false]
+    by_cases hc : (policy st.psize st.pol st.prev sz st.fsize).1 < sz ∨ (policy st.psize st.pol st.prev sz st.fsize).1 % st.psize ≠ 0
+    · left; simp only [hc, if_true]
+    · simp only [hc, if_false]
+      split
+      · rename_i hm
+        split
+        · right; left; rfl
+        · rename_i hlt; right; right
+          exact ⟨st.maxoff, by omega, rfl, rfl, by omega⟩
+      · rename_i hm
+        right; right
+        exact ⟨_, by omega, rfl, rfl, by omega⟩
+
+/-- a successful `ensure_size` makes room -/
+theorem ensureSize_ok_ge (st : St) (sz : Nat) (hp : 0 < st.psize) (h : (ensureSize st sz).1 = .ok) :
+    sz ≤ (ensureSize st sz).2.fsize := by
+  rcases ensureSize_cases st sz with ⟨h0, e⟩ | ⟨h0, e | e | ⟨T, hT, e, _, _⟩⟩
+  · rw [e]; exact h0
+  · rw [e] at h; cases h
+  · rw [e] at h; cases h
+  · rw [e] at h ⊢
+    rcases truncate_cases { st with prev := (policy st.psize st.pol st.prev sz st.fsize).2 } T with
+      ⟨e2, he⟩ | ⟨e2, _⟩ | ⟨e2, _⟩
+    · rw [e2]; simp only [] at he ⊢
+      have := roundUp_ge T st.psize hp; omega
+    · rw [e2] at h; cases h
+    · rw [e2]; simp only []
+      have := roundUp_ge T st.psize hp; omega
+
+/-- `ensure_size` never shrinks, and keeps every byte below the old size; new bytes are zero -/
+theorem ensureSize_file (st : St) (sz : Nat) (hp : 0 < st.psize) (hi : Inv st) :
+    st.fsize ≤ (ensureSize st sz).2.fsize ∧ (ensureSize st sz).2.file = resize st.file (ensureSize st sz).2.fsize := by
+  have keep : st.fsize ≤ st.fsize ∧ st.file = resize st.file st.fsize := by
+    refine ⟨Nat.le_refl _, ?_⟩
+    unfold resize; rw [← hi.1]; simp [zeros]
+  rcases ensureSize_cases st sz with ⟨h0, e⟩ | ⟨h0, e | e | ⟨T, hT, e, _, _⟩⟩
+  · rw [e]; exact keep
+  · rw [e]; exact keep
+  · rw [e]; exact keep
+  · rw [e]
+    rcases truncate_cases { st with prev := (policy st.psize st.pol st.prev sz st.fsize).2 } T with
+      ⟨e2, _⟩ | ⟨e2, _⟩ | ⟨e2, _⟩ <;> rw [e2]
+    · exact keep
+    · exact keep
+    · have := roundUp_ge T st.psize hp
+      refine ⟨?_, ?_⟩
+      · show st.fsize ≤ roundUp T st.psize
+        omega
+      · rfl
+
+theorem readAt_resize (f : Bytes) (S o n : Nat) (h : o + n ≤ f.length) (hS : f.length ≤ S) :
+    readAt (resize f S) o n = readAt f o n := by
+  apply List.ext_getElem?
+  intro i
+  rw [getElem?_readAt, getElem?_readAt, getElem?_resize]
+  by_cases c : i < n
+  · simp only [c, if_true, show o + i < S by omega, List.getD_eq_getElem?_getD]
+    rw [List.getElem?_eq_getElem (by omega)]; simp
+  · simp [c]
+
+/-- bytes exposed by growth are zero -/
+theorem readAt_resize_fresh (f : Bytes) (S o n : Nat) (h : f.length ≤ o) (hS : o + n ≤ S) :
+    readAt (resize f S) o n = zeros n := by
+  apply List.ext_getElem?
+  intro i
+  rw [getElem?_readAt, getElem?_resize]
+  unfold zeros
+  rw [List.getElem?_replicate]
+  by_cases c : i < n
+  · simp only [c, if_true, show o + i < S by omega, List.getD_eq_getElem?_getD]
+    rw [List.getElem?_eq_none (by omega)]; simp
+  · simp [c]
+
+/-! ## read-after-write on the flat reference -/
+
+/-- shape of a successful flat write -/
+theorem flatWrite_ok (st st' : St) (off : Int) (d : Bytes) (sp : Nat) (h : flatWrite st off d = (.ok, sp, st')) :
+    0 ≤ off ∧ off + d.length ≤ offTMax ∧ sp = d.length ∧
+    ∃ st1, ((st1 = st ∧ off.toNat + d.length ≤ st.fsize) ∨
+            (st1 = (ensureSize st (off.toNat + d.length)).2 ∧ (ensureSize st (off.toNat + d.length)).1 = .ok ∧
+              st.fsize < off.toNat + d.length)) ∧
+      st' = { st1 with file := writeAt st1.file off.toNat d } := by
+  unfold flatWrite at h
+  by_cases hb : off < 0 ∨ off + d.length > offTMax
+  · rw [if_pos hb] at h; cases h
+  rw [if_neg hb] at h
+  by_cases hm : st.maxoff ≠ 0 ∧ off.toNat + d.length > st.maxoff
+  · rw [if_pos hm] at h; cases h
+  rw [if_neg hm] at h
+  simp only [] at h
+  by_cases hg : off.toNat + d.length > st.fsize
+  · simp only [hg, if_true] at h
+    by_cases hok : (ensureSize st (off.toNat + d.length)).1 = .ok
+    · simp only [hok, ne_eq, not_true_eq_false, if_false, Prod.mk.injEq, true_and] at h
+      exact ⟨by omega, by omega, h.1.symm, _, Or.inr ⟨rfl, hok, hg⟩, h.2.symm⟩
+    · rw [if_pos hok] at h
+      simp only [Prod.mk.injEq] at h
+      exact absurd h.1 hok
+  · simp only [hg, if_false, ne_eq, not_true_eq_false, Prod.mk.injEq, true_and] at h
+    exact ⟨by omega, by omega, h.1.symm, _, Or.inl ⟨rfl, by omega⟩, h.2.symm⟩
+
+theorem flatRead_after_flatWrite (st st' : St) (off : Int) (d : Bytes) (sp : Nat) (hp : 0 < st.psize)
+    (h : flatWrite st off d = (.ok, sp, st')) : flatRead st' off d.length = (.ok, d) := by
+  obtain ⟨h0, h1, _, st1, hst1, rfl⟩ := flatWrite_ok st st' off d sp h
+  have hsz : off.toNat + d.length ≤ st1.fsize := by
+    rcases hst1 with ⟨rfl, h⟩ | ⟨rfl, hok, _⟩
+    · exact h
+    · exact ensureSize_ok_ge _ _ hp hok
+  unfold flatRead
+  rw [if_neg (by omega)]
+  simp only []
+  rw [show min d.length (st1.fsize - off.toNat) = d.length by omega, readAt_writeAt_same]
+
+/-- a successful write leaves every other byte below the old size as it was -/
+theorem flatRead_other_after_flatWrite (st st' : St) (off : Int) (d : Bytes) (sp : Nat) (hp : 0 < st.psize) (hi : Inv st)
+    (h : flatWrite st off d = (.ok, sp, st')) (o n : Nat) (hin : o + n ≤ st.fsize)
+    (hdis : o + n ≤ off.toNat ∨ off.toNat + d.length ≤ o) :
+    flatRead st' o n = flatRead st o n := by
+  obtain ⟨h0, h1, _, st1, hst1, rfl⟩ := flatWrite_ok st st' off d sp h
+  have hfile : st.fsize ≤ st1.fsize ∧ st1.file = resize st.file st1.fsize := by
+    rcases hst1 with ⟨rfl, _⟩ | ⟨rfl, _, _⟩
+    · refine ⟨Nat.le_refl _, ?_⟩
+      unfold resize; rw [← hi.1]; simp [zeros]
+    · exact ensureSize_file _ _ hp hi
+  unfold flatRead
+  simp only []
+  split
+  · rfl
+  · congr 1
+    simp only [Int.toNat_natCast]
+    rw [show min n (st1.fsize - o) = n by omega, show min n (st.fsize - o) = n by omega]
+    have hlen : (resize st.file st1.fsize).length = st1.fsize := length_resize _ _
+    rw [readAt_writeAt_disjoint _ _ _ _ _ (by rw [hfile.2, hlen]; omega) hdis, hfile.2,
+      readAt_resize _ _ _ _ (by rw [hi.1]; exact hin) (by rw [hi.1]; exact hfile.1)]
+
+/-- bytes between the old and the new size that the write did not cover read as zero -/
+theorem flatRead_fresh_after_flatWrite (st st' : St) (off : Int) (d : Bytes) (sp : Nat) (hp : 0 < st.psize) (hi : Inv st)
+    (h : flatWrite st off d = (.ok, sp, st')) (o n : Nat) (hlo : st.fsize ≤ o) (hhi : o + n ≤ st'.fsize)
+    (hb : (o : Int) + n ≤ offTMax) (hdis : o + n ≤ off.toNat ∨ off.toNat + d.length ≤ o) :
+    flatRead st' o n = (.ok, zeros n) := by
+  obtain ⟨h0, h1, _, st1, hst1, rfl⟩ := flatWrite_ok st st' off d sp h
+  have hfile : st.fsize ≤ st1.fsize ∧ st1.file = resize st.file st1.fsize := by
+    rcases hst1 with ⟨rfl, _⟩ | ⟨rfl, _, _⟩
+    · refine ⟨Nat.le_refl _, ?_⟩
+      unfold resize; rw [← hi.1]; simp [zeros]
+    · exact ensureSize_file _ _ hp hi
+  simp only [] at hhi
+  unfold flatRead
+  simp only []
+  rw [if_neg (by omega)]
+  congr 1
+  rw [show min n (st1.fsize - (o : Int).toNat) = n by simp; omega]
+  simp only [Int.toNat_natCast]
+  have hlen : (resize st.file st1.fsize).length = st1.fsize := length_resize _ _
+  rw [readAt_writeAt_disjoint _ _ _ _ _ (by rw [hfile.2, hlen]; omega) hdis, hfile.2,
+    readAt_resize_fresh _ _ _ _ (by rw [hi.1]; exact hlo) hhi]
+
+/-! ## the invariant along flat histories whose copies stay inside the file -/
+
+theorem length_writeAt_inside (f : Bytes) (off : Nat) (d : Bytes) (h : off + d.length ≤ f.length) :
+    (writeAt f off d).length = f.length := by
+  by_cases hd : d = []
+  · subst hd; rfl
+  · rw [length_writeAt _ _ _ hd]; omega
+
+theorem copyLoop_length (cbuf : Nat) : ∀ (fuel : Nat) (file : Bytes) (off siz noff pos : Nat),
+    noff + siz ≤ file.length → (copyLoop cbuf fuel file off siz noff pos).length = file.length
+  | 0, file, _, _, _, _, _ => rfl
+  | fuel + 1, file, off, siz, noff, pos, h => by
+    unfold copyLoop
+    split
+    · rename_i hlt
+      simp only []
+      split
+      · rfl
+      · have hl : (readAt file (off + pos) (min cbuf (siz - pos))).length ≤ siz - pos := by
+          rw [length_readAt]; omega
+        have hw := length_writeAt_inside file (noff + pos) (readAt file (off + pos) (min cbuf (siz - pos))) (by omega)
+        rw [copyLoop_length cbuf fuel _ off siz noff _ (by rw [hw]; exact h), hw]
+    · rfl
+
+theorem flatCopy_inv (st : St) (off siz noff : Nat) (hi : Inv st) (hin : noff + siz ≤ st.fsize) :
+    Inv (flatCopy st off siz noff).2 := by
+  have hf : ((fileCopy st.cbuf st.file off siz noff).2).length = st.file.length := by
+    unfold fileCopy
+    split
+    · rfl
+    · exact copyLoop_length _ _ _ _ _ _ _ (by rw [hi.1]; exact hin)
+  unfold flatCopy
+  split
+  · split
+    · refine ⟨?_, hi.2⟩
+      show (writeAt st.file noff (readAt st.file off siz)).length = st.fsize
+      rw [length_writeAt_inside _ _ _ (by rw [length_readAt, hi.1]; omega)]; exact hi.1
+    · exact ⟨by show ((fileCopy st.cbuf st.file off siz noff).2).length = st.fsize; rw [hf]; exact hi.1, hi.2⟩
+  · exact ⟨by show ((fileCopy st.cbuf st.file off siz noff).2).length = st.fsize; rw [hf]; exact hi.1, hi.2⟩
+
+theorem flatWrite_inv (st : St) (off : Int) (d : Bytes) (hp : 0 < st.psize) (hi : Inv st) : Inv (flatWrite st off d).2.2 := by
+  unfold flatWrite
+  split
+  · exact hi
+  · split
+    · exact hi
+    · simp only []
+      generalize hr : (if off.toNat + d.length > st.fsize then ensureSize st (off.toNat + d.length) else (Rc.ok, st)) = r
+      have hri : Inv r.2 ∧ (r.1 = .ok → off.toNat + d.length ≤ r.2.fsize) := by
+        rw [← hr]; split
+        · exact ⟨ensureSize_inv _ _ hi, ensureSize_ok_ge _ _ hp⟩
+        · exact ⟨hi, fun _ => by show off.toNat + d.length ≤ st.fsize; omega⟩
+      split
+      · exact hri.1
+      · rename_i hok
+        have hok' : r.1 = .ok := by simpa using hok
+        refine ⟨?_, hri.1.2⟩
+        show (writeAt r.2.file off.toNat d).length = r.2.fsize
+        rw [length_writeAt_inside _ _ _ (by rw [hri.1.1]; exact hri.2 hok')]; exact hri.1.1
+
+theorem slotLen_le (s : Slot) (fsize : Nat) : s.off + slotLen s fsize ≤ fsize ∨ slotLen s fsize = 0 := by
+  unfold slotLen
+  split
+  · right; rfl
+  · left; omega
+
+theorem flatMmapWrite_inv (st : St) (so rel : Nat) (d : Bytes) (hi : Inv st) : Inv (flatMmapWrite st so rel d).2 := by
+  unfold flatMmapWrite
+  cases hk : st.slots.findIdx? (fun s => s.off == so) with
+  | none => exact hi
+  | some k =>
+    simp only []
+    cases hsk : st.slots[k]? with
+    | none => exact hi
+    | some s =>
+      simp only []
+      have hlen := hi.2 s (List.mem_of_getElem? hsk)
+      split
+      · exact hi
+      · rename_i h0
+        split
+        · rename_i h1
+          refine ⟨?_, hi.2⟩
+          show (writeAt st.file (s.off + rel) d).length = st.fsize
+          have := slotLen_le s st.fsize
+          rw [length_writeAt_inside _ _ _ (by rw [hi.1]; omega)]; exact hi.1
+        · exact hi
+
+/-- copies whose destination lies inside the logical size at the time of the call -/
+def CopiesInside : St → List Op → Prop
+  | _, [] => True
+  | st, op :: ops =>
+    (match op with
+     | .copy _ siz noff => noff + siz ≤ st.fsize
+     | _ => True) ∧ CopiesInside (flatExec st op).1 ops
+
+theorem flatExec_psize (st : St) (op : Op) (hs : AllShared st.slots) : (flatExec st op).1.psize = st.psize := by
+  have h1 : core (exec st op).1 = core st ∨ ∃ sz, core (exec st op).1 = core (ensureSize st sz).2 ∨
+      core (exec st op).1 = core (truncate st sz).2 := by
+    cases op with
+    | write off d =>
+      rcases write_core st off d with e | e
+      · exact Or.inl e
+      · exact Or.inr ⟨_, Or.inl e⟩
+    | read off n => exact Or.inl rfl
+    | copy off siz noff => exact Or.inl (copy_core _ _ _ _)
+    | mmapWrite so rel d => exact Or.inl (mmapWrite_core _ _ _ _)
+    | truncate size => exact Or.inr ⟨size, Or.inr rfl⟩
+    | ensure size => exact Or.inr ⟨size, Or.inl rfl⟩
+    | addMmap off maxlen priv => exact Or.inl (addMmap_core _ _ _ _)
+    | removeMmap off => exact Or.inl (removeMmap_core _ _)
+    | remapAll => exact Or.inl rfl
+  have ht : ∀ (s0 : St) sz, (truncate s0 sz).2.psize = s0.psize := by
+    intro s0 sz
+    rcases truncate_cases s0 sz with ⟨e, _⟩ | ⟨e, _⟩ | ⟨e, _⟩ <;> rw [e]
+  have he : ∀ sz, (ensureSize st sz).2.psize = st.psize := by
+    intro sz
+    rcases ensureSize_cases st sz with ⟨_, e⟩ | ⟨_, e | e | ⟨T, _, e, _, _⟩⟩ <;> rw [e]
+    exact ht _ _
+  rw [← exec_eq_flat st op hs]
+  rcases h1 with e | ⟨sz, e | e⟩
+  · simp only [core, Prod.mk.injEq] at e; exact e.1
+  · simp only [core, Prod.mk.injEq] at e; rw [e.1]; exact he sz
+  · simp only [core, Prod.mk.injEq] at e; rw [e.1]; exact ht st sz
+
+theorem flatExec_inv (st : St) (op : Op) (hp : 0 < st.psize) (hi : Inv st)
+    (hc : match op with | .copy _ siz noff => noff + siz ≤ st.fsize | _ => True) : Inv (flatExec st op).1 := by
+  cases op with
+  | write off d => exact flatWrite_inv _ _ _ hp hi
+  | read off n => exact hi
+  | copy off siz noff => exact flatCopy_inv _ _ _ _ hi hc
+  | mmapWrite so rel d => exact flatMmapWrite_inv _ _ _ _ hi
+  | truncate size => exact truncate_inv _ _ hi
+  | ensure size => exact ensureSize_inv _ _ hi
+  | addMmap off maxlen priv =>
+    simp only [flatExec, exec]
+    rcases addMmap_cases st off maxlen priv with h | ⟨ns, out, _, _, hlen, hins, h⟩
+    · rw [h]; exact hi
+    · rw [h]
+      refine ⟨hi.1, ?_⟩
+      intro s hs
+      rcases insertSlot_mem _ _ _ hins s hs with h' | h'
+      · subst h'; exact hlen
+      · exact hi.2 s h'
+  | removeMmap off =>
+    simp only [flatExec, exec, removeMmap]
+    split
+    · exact hi
+    · rename_i out hout
+      exact ⟨hi.1, fun s hs => hi.2 s (removeFirst_mem _ _ _ hout s hs)⟩
+  | remapAll =>
+    refine ⟨hi.1, ?_⟩
+    intro s hs
+    simp only [flatExec, exec, remapAll, List.mem_map] at hs
+    obtain ⟨s0, _, rfl⟩ := hs
+    exact slotLen_remapSlot _ _
+
+theorem flatRun_inv : ∀ (ops : List Op) (st : St), 0 < st.psize → AllShared st.slots → (∀ op ∈ ops, op.shared) →
+    Inv st → CopiesInside st ops → Inv (flatRun st ops).1
+  | [], _, _, _, _, hi, _ => hi
+  | op :: ops, st, hp, hs, hops, hi, hc => by
+    simp only [flatRun]
+    exact flatRun_inv ops _ (by rw [flatExec_psize st op hs]; exact hp)
+      (flatExec_allShared st op hs (hops op (List.mem_cons_self)))
+      (fun o ho => hops o (List.mem_cons_of_mem _ ho)) (flatExec_inv st op hp hi hc.1) hc.2
+
 end IwModel.Exf
